@@ -204,7 +204,7 @@ func (h *Hooks) Invoke(ctx context.Context, goMethod string, args []any, out Out
 	si := &StubIn{GoMethod: goMethod}
 	if len(args) > 0 {
 		si.HasPayload = true
-		si.Payload = Canon(args[0])
+		si.Payload = canonTyped(args[0], h.svc.payloadT[h.svc.byGo[goMethod]])
 	}
 	ex.StubIn = si
 	ex.Seq = append(ex.Seq, "stub_in")
@@ -349,6 +349,8 @@ type svcState struct {
 	client   reflect.Value // *httpclient.Client
 	handler  http.Handler
 	payloadT map[string]reflect.Type // design method name -> payload type (nil if none)
+	resT     map[string]reflect.Type // design method name -> result type (nil if none)
+	byGo     map[string]string       // Go method name -> design name
 	hasRes   map[string]bool
 	goName   map[string]string
 	mounted  [][2]string
@@ -409,6 +411,14 @@ func (dr *Driver) setup(st *svcState) (err error) {
 			}
 		}
 		st.hasRes[dn] = m.Type.NumOut() >= 2
+		if st.resT == nil {
+			st.resT = map[string]reflect.Type{}
+			st.byGo = map[string]string{}
+		}
+		st.byGo[gn] = dn
+		if m.Type.NumOut() >= 2 {
+			st.resT[dn] = m.Type.Out(0)
+		}
 	}
 	if sv.ServerNew == nil {
 		return nil
@@ -646,7 +656,7 @@ func (dr *Driver) Run(c *Case) *Exchange {
 				v = reflect.New(pt.Elem())
 			}
 			payload = v.Interface()
-			ex.ClientIn = Canon(payload)
+			ex.ClientIn = canonTyped(payload, pt)
 		}
 		ex.tap("client_in")
 		res, err := ep(ctx, payload)
@@ -655,7 +665,7 @@ func (dr *Driver) Run(c *Case) *Exchange {
 			co.Err = errInfo(err)
 		} else if res != nil {
 			co.HasRes = true
-			co.Result = Canon(res)
+			co.Result = canonTyped(res, st.resT[c.Method])
 		}
 		ex.mu.Lock()
 		ex.ClientOut = co
@@ -732,4 +742,15 @@ func (dr *Driver) CloseLog() {
 	if dr.out != nil {
 		dr.out.Flush()
 	}
+}
+
+// canonTyped canonicalises x whose static type is t (an `any`-typed value keeps its JSON form).
+func canonTyped(x any, t reflect.Type) any {
+	if t != nil && t.Kind() == reflect.Interface && t.NumMethod() == 0 {
+		if x == nil {
+			return nil
+		}
+		return vtreeA(jsonable(x))
+	}
+	return Canon(x)
 }
